@@ -60,6 +60,12 @@ fn alphabet(tier: Tier) -> Vec<String> {
                 v.extend([c - 1, c]);
             }
             v.push(u32::MAX as u64);
+            // an even sweep of the whole 32-bit range, and every value around the largest representable one
+            let n = 6000u64;
+            for i in 0..n {
+                v.push(i * (u32::MAX as u64) / n);
+            }
+            v.extend(4_294_967 - 64..=4_294_967 + 64);
         }
     }
     v.retain(|x| *x <= u32::MAX as u64);
